@@ -663,6 +663,96 @@ def r10(p, rep):
     return n
 
 
+def r13(p, rep):
+    rep.rule("C01.R13", "a lowering that labels its result with the requested output expression has arranged the value for it: the returned value depends on `out`", "data dependence of the returned value on the `out` parameter (flow-insensitive closure)", floor=3)
+    from . import ir
+
+    n = 0
+    for f in p.funcs.values():
+        if not any(f.module.name.endswith(m) for m in LOWERING_MODULES) or not isinstance(f.node, ast.FunctionDef) or "out" not in f.params:
+            continue
+        if any(isinstance(x, ast.Name) and x.id == "out" and not isinstance(x.ctx, ast.Load) for x in walk_no_nested(f.node)):
+            continue  # `out` is re-bound: not the caller's expression any more
+        for r in walk_no_nested(f.node):
+            if isinstance(r, ast.Return) and isinstance(r.value, ast.Call) and norm(r.value.func).split(".")[-1] == "NamedTensor" and len(r.value.args) == 2 and isinstance(r.value.args[1], ast.Name) and r.value.args[1].id == "out":
+                n += 1
+                # dependence on the expression itself; reading only `out.shape` / `out.ndim` (to check the result) arranges nothing
+                binds = ir._bindings(f.node)
+                seen_, todo, ok = set(), [r.value.args[0]], False
+                while todo and not ok:
+                    e = todo.pop()
+                    for x in ast.walk(e):
+                        if isinstance(x, ast.Name) and isinstance(x.ctx, ast.Load):
+                            if x.id == "out":
+                                par = getattr(x, "_parent", None)
+                                if not (isinstance(par, ast.Attribute) and par.value is x and par.attr in ("shape", "ndim")):
+                                    ok = True
+                            elif x.id not in seen_:
+                                seen_.add(x.id)
+                                todo += list(binds.get(x.id, []))
+                rep.add("C01.R13", f"{f.qualname}:labelled-out", f"{f.module.rel}:{r.lineno}", ok, "the value returned under the label `out` is computed from `out` (rearranged / shaped for it)" if ok else f"`{norm(r.value)}` attaches the requested output expression to a value that was computed without looking at it: when the output permutes the kept axes ('a [b] c -> c a') the data is in input order but labelled in output order - silently transposed for equal lengths")
+    if n < 3:
+        raise AnalysisError(f"only {n} lowering results labelled with `out` found")
+    return n
+
+
+def r12(p, rep):
+    rep.rule("C01.R12", "the three operand expressions of the batched-matmul lowering of dot are built from shared axis groups: the batch group is the same list in left, right and out; every other group is used by exactly two of them", "T-SIB (source list of each group of the three matmul expressions)", floor=1)
+    m = p.module("adapter.decomposednamedtensor_from_classical")
+    hosts = [f for f in p.funcs.values() if f.module is m and isinstance(f.node, ast.FunctionDef) and any(isinstance(c, ast.Call) and isinstance(c.func, ast.Attribute) and c.func.attr == "matmul" for c in walk_no_nested(f.node))]
+    if not hosts:
+        raise AnalysisError("anchor vanished: no function of decomposednamedtensor_from_classical calls classical.matmul")
+    n = 0
+    for f in hosts:
+        def root(name, depth=0):
+            """follow plain aliases / copies (`x = y`, `x = list(y)`) to the list a group is built from"""
+            if depth > 3:
+                return name
+            defs = [a.value for a in walk_no_nested(f.node) if isinstance(a, ast.Assign) and len(a.targets) == 1 and isinstance(a.targets[0], ast.Name) and a.targets[0].id == name]
+            if len(defs) == 1:
+                v = defs[0]
+                if isinstance(v, ast.Name):
+                    return root(v.id, depth + 1)
+                if isinstance(v, ast.Call) and isinstance(v.func, ast.Name) and v.func.id in ("list", "tuple") and len(v.args) == 1 and isinstance(v.args[0], ast.Name):
+                    return root(v.args[0].id, depth + 1)
+            return name
+
+        def source(elt):
+            gens = [g for x in ast.walk(elt) if isinstance(x, (ast.ListComp, ast.GeneratorExp)) for g in x.generators]
+            names = [g.iter.id for g in gens if isinstance(g.iter, ast.Name)]
+            if len(names) == 1:
+                return root(names[0])
+            # group(names): a helper applied to the list
+            if isinstance(elt, ast.Call) and len(elt.args) == 1 and isinstance(elt.args[0], ast.Name):
+                return root(elt.args[0].id)
+            return None
+
+        triples = []
+        for c in walk_no_nested(f.node):
+            if isinstance(c, ast.Call) and norm(c.func).endswith("List.create") and len(c.args) == 1 and isinstance(c.args[0], (ast.List, ast.Tuple)) and len(c.args[0].elts) == 3:
+                srcs = [source(e) for e in c.args[0].elts]
+                if all(srcs):
+                    triples.append((c, srcs))
+        if len(triples) != 3:
+            # built by a local helper: `matmul_expr(batch, left_keep, contract)`
+            nested = {g.name: g for g in p.funcs.values() if g.parent is f}
+            triples = []
+            for c in walk_no_nested(f.node):
+                if isinstance(c, ast.Call) and isinstance(c.func, ast.Name) and c.func.id in nested and len(c.args) == 3 and all(isinstance(a, ast.Name) for a in c.args) and not c.keywords and "List.create" in norm(nested[c.func.id].node):
+                    triples.append((c, [root(a.id) for a in c.args]))
+        if len(triples) != 3:
+            raise AnalysisError(f"unrecognised idiom: expected three 3-group expressions (left, right, out) in {f.qualname}, found {len(triples)}")
+        n += 1
+        firsts = {t[1][0] for t in triples}
+        count = {}
+        for _, srcs in triples:
+            for s_ in srcs[1:]:
+                count[s_] = count.get(s_, 0) + 1
+        ok = len(firsts) == 1 and all(v == 2 for v in count.values()) and len(count) == 3
+        rep.add("C01.R12", f"{f.qualname}:shared-groups", f"{m.rel}:{triples[0][0].lineno}", ok, f"batch group {sorted(firsts)} shared by all three; other groups {sorted(count)} each used twice" if ok else f"the three matmul expressions are built from {[t[1] for t in triples]}: the batch group differs between the operands (or a group is used by one expression only), so with two batch axes listed in different order in the two operands the flattened batch dimensions pair element (i, j) with (j, i)")
+    return n
+
+
 def r11(p, rep):
     rep.rule("C01.R11", "in the per-backend operation tables an entry named N is built by the adapter function N (and no declared entry is dead)", "T-TAB (key vs builder) + dead-operand check on dict unions", floor=1)
     fam = family_lists(p)
@@ -743,6 +833,8 @@ def run(p, rep, tier):
     r9(p, rep)
     r10(p, rep)
     r11(p, rep)
+    r12(p, rep)
+    r13(p, rep)
     from . import c14 as _c14
 
     _c14.r7(p, rep)  # table entries built in a loop must each keep their own primitive
